@@ -78,6 +78,21 @@ theorem fitsT_or_bad (enc : Enc) : ∀ (n : Nat) (ty : Ty) (b : Bool) (v : Node)
           rcases ih t false x (by simp [Ty.height] at hh; omega) with h | h
           · exact h
           · exact absurd ⟨x, hm, h⟩ hex
+    | tup ts =>
+      cases v with
+      | leaf l => exact Or.inr .tupLeaf
+      | hdr h body => exact Or.inr .tupHdr
+      | obj dfs => exact Or.inr .tupObj
+      | arr vs =>
+        rcases Nat.lt_or_ge ts.length (expandNodes vs).length with hlen | hlen
+        · exact Or.inr (.tupLong hlen)
+        · by_cases hex : ∃ t x, (t, x) ∈ List.zip ts (expandNodes vs) ∧ Bad enc false t x
+          · obtain ⟨t, x, hm, hb⟩ := hex
+            exact Or.inr (.tupElem hm hb)
+          · refine Or.inl (.tup hlen (fun t x hm => ?_))
+            rcases ih t false x (by have := mem_heightTs ts t (List.of_mem_zip hm).1; simp [Ty.height] at hh; omega) with h | h
+            · exact h
+            · exact absurd ⟨t, x, hm, h⟩ hex
     | map t =>
       cases v with
       | leaf l => exact Or.inl .mapOnLeaf
@@ -103,7 +118,7 @@ theorem fitsT_or_bad (enc : Enc) : ∀ (n : Nat) (ty : Ty) (b : Bool) (v : Node)
         | nil => exact Or.inl .emptySt
         | cons x xs => exact Or.inr .stArr
       | obj dfs =>
-        by_cases hex : ∃ k o x i t, (k, o, x) ∈ dfs ∧ lookupIdx (decode enc k) fs 0 = some (i, t) ∧ Bad enc true t x
+        by_cases hex : ∃ k o x i t, (k, o, x) ∈ dfs ∧ lookupIdx (decode enc k.bytes) fs 0 = some (i, t) ∧ Bad enc true t x
         · obtain ⟨k, o, x, i, t, hm, hl, hb⟩ := hex
           exact Or.inr (.stElem hm hl hb)
         · refine Or.inl (.st (fun k o x hm i t hl => ?_))
@@ -120,5 +135,58 @@ theorem error_agreement (enc : Enc) (ty : Ty) (d : Doc) (hroot : Ty.isRoot ty = 
   rcases fitsT_or_bad enc (ty.height + 1) ty false (.obj d) (Nat.lt_succ_self _) with h | h
   · exact Or.inl ⟨deTape_eq_deStream enc ty d hroot hwf h, deTape_eq_valueOf enc ty d hroot hwf h⟩
   · exact Or.inr h
+
+/-! ### fixed-length targets on a LONGER array: the exact behaviour of both paths -/
+
+/-- tape path: the tuple's elements are read from the front of the array, whatever follows is never looked at --
+for an array of ANY length the result is `valueOfN` (whose `tupVals` takes the prefix) -/
+theorem tde_tup_any_length (enc : Enc) (toks : List TTok) (f : Nat) (ts : List Ty) (vs : List Node) (i : Nat) (b : Bool) (o : Op)
+    (hall : ∀ t x, (t, x) ∈ List.zip ts (expandNodes vs) → FitsT enc false t x)
+    (hwf : (Node.arr vs).wf = true) (hsit : SitsAt toks i (tapeNode i (.arr vs))) (hh : Ty.heightTs ts < f) :
+    tde enc toks (f + 1) (.tup ts) (vkOf b o i) = valueOfN enc (f + 1) (.tup ts) o (.arr vs) := by
+  obtain ⟨h0, h1⟩ := sits_arr hsit
+  have hwn : wfNodes vs = true := by simpa [Node.wf] using hwf
+  have hsz := nodesTsize_expand vs hwn
+  rw [← tapeNodes_expand vs (i + 1) hwn] at h1
+  have := tTupFold_nodesN toks (tde enc toks f) (fun t x => valueOfN enc f t .eq x) (i + 1 + nodesTsize vs) ts (expandNodes vs) (i + 1)
+    h1 (by omega) (fun v hm => (expand_mem vs hwn v hm).2)
+    (fun t x hm i' hs' => by
+      have := tde_node enc toks f t false .eq x i' (hall t x hm) (expand_mem vs hwn x (List.of_mem_zip hm).2).1 hs'
+        (by have := mem_heightTs ts t (List.of_mem_zip hm).1; omega) (fun _ => rfl)
+      simpa [vkOf] using this)
+  rw [tde, valueOfN]
+  simp only [tShape_seq_arr enc h0, this]
+
+/-- stream path: after the tuple's elements the closing brace is demanded -- on a longer array the result is the
+first element error, if there is one among the elements read, and `invalid syntax` (class `other`) otherwise -/
+theorem sde_tup_longer (enc : Enc) (f : Nat) (ts : List Ty) (vs : List Node) (o : Op) (rest : List RTok)
+    (hall : ∀ t x, (t, x) ∈ List.zip ts (expandNodes vs) → Fits enc t x)
+    (hwf : (Node.arr vs).wf = true) (hlen : ts.length < (expandNodes vs).length) (hh : Ty.heightTs ts < f) :
+    sde enc (f + 1) (.tup ts) (nodeHead (.arr vs)) o (nodeTail (.arr vs) ++ rest) =
+      (match tupVals (fun t x => valueOfN enc f t .eq x) ts (expandNodes vs) with
+       | .error e => .error e
+       | .ok _ => .error .other) := by
+  have hwn : wfNodes vs = true := by simpa [Node.wf] using hwf
+  have hex := lexNodes_expand vs
+  have := sTupFold_nodes (fun t tok r => sde enc f t tok .eq r) (fun t x => valueOfN enc f t .eq x) rest ts (expandNodes vs)
+    (fun v hm => (expand_mem vs hwn v hm).2)
+    (fun t x hm rest' => sde_node enc f t .eq x rest' (hall t x hm) (expand_mem vs hwn x (List.of_mem_zip hm).2).1
+      (by have := mem_heightTs ts t (List.of_mem_zip hm).1; omega))
+  simp only [nodeHead, nodeTail]
+  rw [sde]
+  rw [hex] at this
+  simp only [List.append_assoc, List.singleton_append] at this ⊢
+  rw [this]
+  cases tupVals (fun t x => valueOfN enc f t Op.eq x) ts (expandNodes vs) with
+  | error e => simp [Except.map]
+  | ok xs =>
+    simp only [Except.map]
+    obtain ⟨y, ys, hd⟩ : ∃ y ys, (expandNodes vs).drop ts.length = y :: ys := by
+      cases hdr : (expandNodes vs).drop ts.length with
+      | nil => have := List.drop_eq_nil_iff.mp hdr; omega
+      | cons y ys => exact ⟨y, ys, rfl⟩
+    rw [hd]
+    simp only [lexNodes, lexNode_cons, List.cons_append]
+    rcases nodeHead_cases y with ⟨s, h⟩ | ⟨s, h⟩ | h <;> simp [h, rRead]
 
 end Jomini.TextDe
